@@ -169,6 +169,214 @@ def context_obligations(rep):
             rep.proved(oid, 'pysym', f'{"pushed (top-level conjunct)" if pushed else "not pushed"}: fetch where = `{w}`', function=fn, clause=clause)
 
 
+# ------------------------------------------------------------------ the OR guard of process_table (pysym) and its producer
+def or_guard_obligations(rep):
+    """Sufficient-condition lemmas behind the context analysis: (a) check_query_conditions records the operator of EVERY BinaryOperation the walker
+    visits; (b) process_table uses the per-table WHERE conditions only if no recorded operator is 'or', and combines what it uses with AND only.
+    A failure of (a)/(b) alone is 'contract needs review' (undecided): the data-level evidence is the path analysis below."""
+    from mindsdb_sql.parser.ast import Identifier, BinaryOperation, BetweenOperation
+    from vlib.pysym.values import mk_str
+    fn = f'{PJ}:PlanJoinTablesQuery.process_table'
+
+    def make_args(ex):
+        selfo = SymObj(None, 'self', prov='param')
+        selfo.known_not_none = True
+        op1, op2 = mk_str('op1'), mk_str('op2')
+        ctx = {'binary_ops': ['and', op1, op2], 'use_limit': False}
+        selfo.fields['query_context'] = ex.param_container(ctx)
+        c1, c2, j1 = (SymObj(None, n, prov='param') for n in ('cond1', 'cond2', 'joinfilter'))
+        for c in (c1, c2, j1):
+            c.known_not_none = True
+        item = SymObj(None, 'item', prov='param')
+        item.known_not_none = True
+        tbl = SymObj({Identifier}, 'table', prov='param')
+        tbl.known_not_none = True
+        tbl.fields.update(alias=None, parentheses=False, parts=ex.param_container(['tbl2']))
+        tbl.closed = True
+        item.fields.update(table=tbl, integration='int2', conditions=ex.param_container([c1, c2]), index=0)
+        selfo.fields['get_filters_from_join_conditions'] = Stub(lambda ex_, a, k: [j1], 'get_filters_from_join_conditions')
+        captured = []
+        planner = SymObj(None, 'planner', prov='param')
+        planner.known_not_none = True
+        planner.fields['get_integration_select_step'] = Stub(lambda ex_, a, k: (captured.append(a[0]), SymObj(None, 'step', prov='fresh'))[1], 'get_integration_select_step')
+        selfo.fields['planner'] = planner
+        selfo.fields['add_plan_step'] = Stub(lambda ex_, a, k: a[0], 'add_plan_step')
+        selfo.fields['step_stack'] = ex.param_container([])
+        selfo.fields['tables_fetch_step'] = ex.param_container({})
+        q = SymObj(None, 'query_in', prov='param')
+        q.known_not_none = True
+        ex.path_state.update(captured=captured, conds=(c1, c2, j1), ops=(op1, op2))
+        return [selfo, item, q], {}
+
+    def post(ex, o):
+        if o.kind != 'return':
+            return f'raises {getattr(o.value, "__name__", o.value)}'
+        cap = o.state['captured']
+        if len(cap) != 1:
+            return f'{len(cap)} fetch queries built'
+        c1, c2, j1 = o.state['conds']
+        op1, op2 = o.state['ops']
+        leaves = []
+
+        def walk(w):
+            if w is None:
+                return None
+            if w in (c1, c2, j1):
+                leaves.append(w)
+                return None
+            f = getattr(w, 'fields', {}) or {}
+            if f.get('op') != 'and' or not isinstance(f.get('args'), list):
+                return f'conditions are combined by {f.get("op")!r}'
+            for a in f['args']:
+                r = walk(a)
+                if r:
+                    return r
+            return None
+        r = walk(cap[0].fields.get('where'))
+        if r:
+            return r
+        if j1 not in leaves:
+            return 'the join filter is dropped'
+        if c1 in leaves or c2 in leaves:
+            ok, _ = ex.valid(z3.And(op1.t != z3.StringVal('or'), op2.t != z3.StringVal('or')), pc=o.pc)
+            if not ok:
+                return "WHERE conditions of the table are pushed although an 'or' operator was recorded for the query"
+        return None
+    v = pysym.verify(PJ, 'PlanJoinTablesQuery.process_table', make_args, post)
+    oid = 'C08.filter.or-guard.process_table'
+    clause = "ensures fetch.where = AND of (conditions of the table, join filters); conditions of the table are used only if no recorded binary operator is 'or'"
+    if v.status == PROVED:
+        rep.proved(oid, 'pysym', v.detail, function=fn, clause=clause, seconds=v.seconds)
+    else:
+        rep.undecided(oid, 'pysym', f'sufficient condition no longer established ({v.detail[:160]}): decided by the path analysis C08.filter.path.* only up to its depth', function=fn, clause=clause)
+    # (a) the producer: every visited BinaryOperation contributes its operator
+    fn2 = f'{PJ}:PlanJoinTablesQuery.check_query_conditions'
+
+    def make_args2(ex):
+        selfo = SymObj(None, 'self', prov='param')
+        selfo.known_not_none = True
+        ctx = {}
+        selfo.fields['query_context'] = ex.param_container(ctx)
+        selfo.fields['check_node_condition'] = Stub(lambda ex_, a, k: None, 'check_node_condition')
+        opn = mk_str('visited_op')
+        n1 = SymObj({BinaryOperation}, 'bin', prov='param')
+        n1.known_not_none = True
+        from mindsdb_sql.parser.ast import Constant
+        n1.fields.update(op=opn, args=ex.param_container([SymObj({Identifier}, 'x', prov='param'), SymObj({Constant}, 'y', prov='param')]))
+        n2 = SymObj({BetweenOperation}, 'btw', prov='param')
+        n2.known_not_none = True
+        n3 = SymObj({Identifier}, 'ident', prov='param')
+        n3.known_not_none = True
+        q = SymObj(None, 'query', prov='param')
+        q.known_not_none = True
+        top = SymObj({BinaryOperation}, 'where', prov='param')
+        top.known_not_none = True
+        top.fields.update(op='and', args=ex.param_container([n1, n2]))
+        q.fields['where'] = top
+        n2.fields.update(args=ex.param_container([n3, SymObj({Constant}, 'lo', prov='param'), SymObj({Constant}, 'hi', prov='param')]))
+        ex.recursion_ok['check_query_conditions.'] = 6
+
+        def traversal(ex_, a, k, node_=None):
+            cb = a[1]
+            for n in (top, n3, n1, n2):
+                ex_.call(cb, [n], {})
+            return None
+        ex.stubs[('mindsdb_sql.planner.utils', 'query_traversal')] = traversal
+        ex.path_state.update(ctx=ctx, opn=opn)
+        return [selfo, q], {}
+
+    def post2(ex, o):
+        if o.kind != 'return':
+            return f'raises {getattr(o.value, "__name__", o.value)}'
+        ops = o.state['ctx'].get('binary_ops')
+        if not isinstance(ops, list) or not any(x is o.state['opn'] or (isinstance(x, SymVal) and x == o.state['opn']) for x in ops):
+            return f'the operator of a visited BinaryOperation is not recorded (binary_ops = {ops})'
+        return None
+    oid2 = 'C08.filter.or-guard.recorded'
+    clause2 = 'ensures query_context.binary_ops contains node.op of every BinaryOperation the walker passes to the callback'
+    try:
+        v2 = pysym.verify(PJ, 'PlanJoinTablesQuery.check_query_conditions', make_args2, post2)
+        status, detail, secs = v2.status, v2.detail, v2.seconds
+    except Exception as e:
+        status, detail, secs = UNDECIDED, f'{type(e).__name__}: {e}', None
+    if status == PROVED:
+        rep.proved(oid2, 'pysym', detail, function=fn2, clause=clause2, seconds=secs)
+    else:
+        rep.undecided(oid2, 'pysym', f'sufficient condition no longer established ({detail[:160]})', function=fn2, clause=clause2)
+
+
+# ------------------------------------------------------------------ systematic boolean paths above the pushed comparison (bounded by depth)
+T, F, U = 'T', 'F', 'U'
+
+
+def _and(a, b):
+    return F if F in (a, b) else (U if U in (a, b) else T)
+
+
+def _or(a, b):
+    return T if T in (a, b) else (U if U in (a, b) else F)
+
+
+def _not(a):
+    return {T: F, F: T, U: U}[a]
+
+
+STEPS = {
+    'andL': (lambda x, o: f'{x} AND {o}', lambda x, o: _and(x, o)),
+    'andR': (lambda x, o: f'{o} AND {x}', lambda x, o: _and(o, x)),
+    'orL': (lambda x, o: f'({x} OR {o})', lambda x, o: _or(x, o)),
+    'orR': (lambda x, o: f'({o} OR {x})', lambda x, o: _or(o, x)),
+    'not': (lambda x, o: f'NOT ({x})', lambda x, o: _not(x)),
+    'func': (lambda x, o: f'coalesce(({x}), true)', lambda x, o: (T if x == U else x)),
+    'is': (lambda x, o: f'(({x}) IS NULL)', lambda x, o: (T if x == U else F)),
+}
+OTHERS = ['t1.x = 2', 't1.z = 3', 't1.w = 4']
+
+
+def path_cases(depth):
+    for k in range(0, depth + 1):
+        for path in itertools.product(STEPS, repeat=k):
+            yield path
+
+
+def path_sql_and_soundness(path, leaf='t2.y = 1'):
+    expr = leaf
+    for i, st in enumerate(path):
+        expr = STEPS[st][0](f'({expr})' if st.startswith('and') and i > 0 else expr, OTHERS[i])
+    # pushing `leaf` into the fetch of t2 is sound iff WHERE = true implies leaf = true (Kleene logic over the leaves)
+    sound = True
+    for x in (T, F, U):
+        for os_ in itertools.product((T, F, U), repeat=len(path)):
+            v = x
+            for i, st in enumerate(path):
+                v = STEPS[st][1](v, os_[i])
+            if v == T and x != T:
+                sound = False
+    return expr, sound
+
+
+def path_analysis(rep, tier):
+    depth = 3 if tier == 'quick' else 4
+    fails = {}
+    n = 0
+    for leaf, tag in (('t2.y = 1', 'eq'), ('t2.y BETWEEN 1 AND 2', 'between')):
+        for path in path_cases(depth if tag == 'eq' else 2):
+            cond, sound = path_sql_and_soundness(path, leaf)
+            sql = f'SELECT * FROM int1.tbl1 AS t1 JOIN int2.tbl2 AS t2 ON t1.id = t2.id WHERE {cond}'
+            n += 1
+            try:
+                p = plan(sql)
+            except Exception:
+                continue
+            f2 = [f for f in fetches(p) if f.integration == 'int2']
+            w = str(f2[0].query.where) if f2 and f2[0].query.where is not None else ''
+            pushed = 'y' in w.replace('`', '') and ('= 1' in w or 'BETWEEN' in w.upper())
+            if pushed and not sound:
+                kinds = sorted({st.rstrip('LR') for st in path if not st.startswith('and')})
+                fails.setdefault(f'C08.filter.path.{tag}.{"+".join(kinds)}', (sql, f'fetch from int2 is filtered by `{w}` although WHERE = true does not imply it (path {"/".join(path)})'))
+    return n, fails
+
+
 # ------------------------------------------------------------------ semi-join restriction by join kind
 def semijoin_obligations(rep):
     fn = f'{PJ}:PlanJoinTablesQuery.get_filters_from_join_conditions'
@@ -298,8 +506,11 @@ def bounded(rep, tier):
         qs = [s for s in plan_.steps if isinstance(s, QueryStep)]
         if ('WHERE' in sql or 'GROUP BY' in sql or 'ORDER BY' in sql or 'LIMIT' in sql) and not qs:
             fails.setdefault('C08.bounded.no-outer-step', (sql, 'no QueryStep re-applies the clauses'))
+    n_paths, path_fails = path_analysis(rep, tier)
+    fails.update(path_fails)
+    n += n_paths
     rep.bounded_evals = n
-    rep.bounded_rule = 'generated 2- and 3-table joins (5 join kinds x 9 WHERE shapes x 7 tails): LIMIT inside a fetch only for safe shapes; an outer QueryStep exists whenever the query has clauses'
+    rep.bounded_rule = 'every path of connectives (AND/OR left+right, NOT, function, IS NULL) of depth <= 3 (thorough: 4) above a comparison on the second table: it may be pushed into that table\'s fetch only if WHERE = true implies it in three-valued logic (truth table); generated 2- and 3-table joins (5 join kinds x 9 WHERE shapes x 7 tails): LIMIT inside a fetch only for safe shapes; an outer QueryStep exists whenever the query has clauses'
     for cid, (inp, obs) in sorted(fails.items()):
         rep.add_bounded(Bounded(cid, False, inp, obs, 'push-down only when safe', bound='scenario family'))
 
@@ -311,6 +522,7 @@ def check(rep, tier):
     rep.trust('pysym executor')
     limit_obligations(rep)
     context_obligations(rep)
+    or_guard_obligations(rep)
     semijoin_obligations(rep)
     outer_obligation(rep)
     bounded(rep, tier)
